@@ -349,7 +349,27 @@ def plan_C05(prop, tier, seed, t0):
                     "sequential + parallel pools, (c) saved terms of the BSS-type drivers on diagrams with outputs; all decided in TLC by Den")
 
 
-PLANS = {"C01": plan_C01, "C05": plan_C05, "C09": plan_C09, "C03": plan_C03, "C12": plan_C12, "C11": plan_C11, "C08": plan_C08, "C02": plan_C02, "C04": plan_C04, "C10": plan_C10, "C15": plan_C15}
+def plan_C06(prop, tier, seed, t0):
+    q = tier == "quick"
+    mcs = [dict(name="sim", module="MC_Sim.tla", cfg="MC_Sim_q.cfg" if q else "MC_Sim_t.cfg", timeout=2000 if q else 6000)]
+    T = dict(module="Trace_Sim.tla", cfg="Trace_Sim.cfg")
+    simdir = os.path.join(WORK, prop, "simdir")
+    traces = [
+        dict(name="cli", engine="sim", args=["--quizx-bin", QUIZX_BIN, "--dir", simdir, "--circuits", 40 if q else 600, "--shots", 6 if q else 12,
+                                             "--queries", 5 if q else 10, "--maxq", 3, "--maxlen", 8], **T),
+    ]
+    return run_plan(prop, tier, seed, t0, mcs, traces, "model_checking", COMMON_ASSUME + [
+                        "printed decimals and the sampler's p are compared at 1e-9 (harness arithmetic) with values derived from the exact scalars that TLC validates",
+                        "that rand's Bernoulli draws are distributed with the p they are given is not checked (no statistical test)"],
+                    "MC: consistency of the Born quantities of spec/Sim.tla over all small circuits (total probability, chain rule of the "
+                    "marginals, expectation values real / identity / Z-type strings); TRACE: one execution = one circuit queried through the built "
+                    "`quizx sim` binary: amplitudes for bit strings (incl. broadcast), expectation values for Pauli strings (incl. lower case and "
+                    "broadcast), sampling runs with the hook logging every draw, methods --cats/--bss/default, with and without --parallel, "
+                    "plus a catalogue of malformed queries; every exact scalar the decomposer returned is compared by TLC with the amplitude / "
+                    "expectation / marginal it must be")
+
+
+PLANS = {"C01": plan_C01, "C06": plan_C06, "C05": plan_C05, "C09": plan_C09, "C03": plan_C03, "C12": plan_C12, "C11": plan_C11, "C08": plan_C08, "C02": plan_C02, "C04": plan_C04, "C10": plan_C10, "C15": plan_C15}
 
 TECH = "explicit TLA+ specification; TLC exhaustive model checking of the spec + TLC trace validation of recorded executions of the real code"
 META = {
@@ -422,8 +442,17 @@ META["C05"] = dict(level="model_checking", engine="decomp", design_ref="DESIGN.m
          "the exact value of the diagram computed by the specification, never flagged approximate) and the saved stabiliser terms; "
          "spec/DecompPar.tla model-checks schedule independence of the fork-join combination.",
     note="hosts <= 8 spiders (+ up to 7 created); rayon schedules are sampled, not enumerated; phases k*pi/4")
+META["C06"] = dict(level="model_checking", engine="sim", design_ref="DESIGN.md section 3 C06", technique=TECH,
+    text="spec/Sim.tla defines amplitudes, Born probabilities in Z[sqrt2][1/2], marginals, Pauli expectation values and the argument front end "
+         "from the exact gate semantics; TLC checks their consistency exhaustively on small circuits and validates every run of the real CLI "
+         "binary: guarded hooks expose the exact scalar behind every printed number and every Bernoulli draw of the sampler, so TLC decides "
+         "that each is exactly the amplitude / expectation / marginal required, that the sampler uses the conditional probability, that printed "
+         "samples have non-zero probability, and that malformed queries are rejected without a panic.",
+    note="<=3 qubits, <=8 gates; floating point (printed decimals, p) compared at 1e-9 in the harness; distribution of the PRNG not tested")
 NOT_APPLICABLE = {}
 ENGINES = [
+    {"name": "sim", "path": "spec/Sim.tla mc/MC_Sim.tla mc/Trace_Sim.tla harness/src/eng_sim.rs",
+     "serves_properties": ["C06"], "kind_free_text": "TLC Born-rule consistency + trace validation of the CLI binary with sampler hooks"},
     {"name": "decomp", "path": "spec/Decomp.tla spec/DecompPar.tla mc/MC_Decomp.tla mc/MC_DecompPar.tla mc/Trace_Decomp.tla harness/src/eng_decomp.rs",
      "serves_properties": ["C05"], "kind_free_text": "TLC exhaustive StepSum + fork-join model + trace validation of steps, runs and saved terms"},
     {"name": "backends", "path": "spec/Backends.tla mc/MC_Backends.tla mc/Trace_Backends.tla harness/src/eng_backends.rs",
